@@ -108,15 +108,29 @@ func c20(c *Ctx) {
 		return
 	}
 	// encoder format
+	// (possibly inside a formatting helper: its parameters stand for the arguments)
 	var sp *ssa.Call
-	for _, cc := range callsNamed(enc, "fmt.Sprintf") {
-		sp = cc
+	var format string
+	var args map[int]ssa.Value
+	ok := false
+	for _, site := range core.DeepCalls(enc, core.MaxSummaryDepth, "fmt.Sprintf") {
+		cc, isCall := site.Instr.(*ssa.Call)
+		if !isCall {
+			continue
+		}
+		site.In(func() {
+			if f, a, fok := sprintfArgs(cc); fok {
+				sp, format, args, ok = cc, f, a, true
+				if len(site.Chain) > 0 {
+					r.Fn(core.FuncName(site.Fn))
+				}
+			}
+		})
 	}
 	if sp == nil {
 		r.Unk("R-C20.1", "tls.BreakIntoNextProtos entry format", p.Pos(enc.Pos()), "no fmt.Sprintf building the entries")
 		return
 	}
-	format, args, ok := sprintfArgs(sp)
 	dirs := parseFormat(format)
 	// expected shape: %s <digits verb> literal %s
 	shape := ok && len(dirs) == 4 && dirs[0].verb == 's' && dirs[1].verb == 'd' && dirs[2].verb == 0 && dirs[3].verb == 's'
@@ -141,6 +155,25 @@ func c20(c *Ctx) {
 				}
 			}
 			cntOK = false
+		}
+	}
+	// or the number of entries produced so far: len(ret) with ret = phi(zero-length make, append(ret, one entry))
+	if lc, isCall := args[1].(*ssa.Call); isCall && core.CalleeName(lc.Common()) == "builtin:len" {
+		if ph, isPhi := core.Strip(lc.Call.Args[0]).(*ssa.Phi); isPhi {
+			cntOK = true
+			for _, e := range ph.Edges {
+				switch x := core.Strip(e).(type) {
+				case *ssa.MakeSlice:
+					if k, isK := core.ConstInt(x.Len); isK && k == 0 {
+						continue
+					}
+				case *ssa.Call:
+					if base, elems, isApp := appendParts(x); isApp && core.Strip(base) == ssa.Value(ph) && len(elems) == 1 {
+						continue
+					}
+				}
+				cntOK = false
+			}
 		}
 	}
 	r.Check(cntOK, "R-C20.1", "tls.BreakIntoNextProtos index is a counter from 0", p.Pos(sp.Pos()), "index = 0,1,2,...", "the chunk index is not a non-negative counter")
@@ -186,6 +219,9 @@ func c20(c *Ctx) {
 		for _, b := range dec.Blocks {
 			for _, in := range b.Instrs {
 				if bo, isBo := in.(*ssa.BinOp); isBo && bo.Op.String() == "+" && bo.Y == after {
+					appended = true
+				}
+				if wc, isW := core.IsCallTo(in, "(*strings.Builder).WriteString"); isW && len(wc.Args) == 2 && core.Strip(wc.Args[1]) == after {
 					appended = true
 				}
 			}
